@@ -71,22 +71,36 @@ pub fn judge_parse<V: Variant>(s: &[u8]) -> Result<u64, String> {
     Ok(crate::report::fnv(&fp))
 }
 
-/// C04 second half: every accepted string re-formats to its own uppercase form.
+/// C04 second half: every accepted string - through every prefix mode - is the optional "T1" followed by hex
+/// digits only and re-formats to its own uppercase form, so no two different accepted strings (up to letter case
+/// and prefix) denote the same hash.
 pub fn judge_canonical<V: Variant>(s: &[u8]) -> Result<bool, String> {
-    let real = catch(|| <V::Hash as FuzzyHashType>::from_str_bytes(s, None)).map_err(|p| format!("from_str_bytes panicked: {p}"))?;
-    match real {
-        Ok(h) => {
-            let digits = if s.len() == V::STRLEN { &s[2..] } else { s };
+    let mut any = false;
+    for (mode, _) in modes() {
+        let real = catch(|| <V::Hash as FuzzyHashType>::from_str_bytes(s, mode)).map_err(|p| format!("from_str_bytes({mode:?}) panicked: {p}"))?;
+        if let Ok(h) = real {
+            any = true;
+            let prefixed = match mode {
+                Some(HexStringPrefix::WithVersion) => true,
+                Some(HexStringPrefix::Empty) => false,
+                None => s.len() == V::STRLEN,
+            };
+            if prefixed && !s.starts_with(b"T1") {
+                return Err(format!("{} from_str_bytes({:?}, {mode:?}) accepted a string whose prefix is not \"T1\" (it denotes the same hash as the properly prefixed string)", V::NAME, String::from_utf8_lossy(s)));
+            }
+            let digits = if prefixed { &s[2.min(s.len())..] } else { s };
+            if let Some(c) = digits.iter().find(|c| !c.is_ascii_hexdigit()) {
+                return Err(format!("{} from_str_bytes({:?}, {mode:?}) accepted a string containing the non-hex byte {c:#04x}", V::NAME, String::from_utf8_lossy(s)));
+            }
             let mut expect = b"T1".to_vec();
             expect.extend(digits.iter().map(|c| c.to_ascii_uppercase()));
             let text = h.to_string();
             if text.as_bytes() != expect.as_slice() {
-                return Err(format!("{} accepted {:?} re-formats to {text:?}, expected {:?}", V::NAME, String::from_utf8_lossy(s), String::from_utf8_lossy(&expect)));
+                return Err(format!("{} accepted ({mode:?}) {:?} re-formats to {text:?}, expected {:?}", V::NAME, String::from_utf8_lossy(s), String::from_utf8_lossy(&expect)));
             }
-            Ok(true)
         }
-        Err(_) => Ok(false),
     }
+    Ok(any)
 }
 
 fn store_str<V: Variant>(h: &V::Hash, prefix: HexStringPrefix) -> Result<Vec<u8>, String> {
